@@ -18,14 +18,14 @@ var c14Seps = []string{"", " ", "\n", "\t ", " ", " ", ";c\n", ";; (x) \"\n"}
 
 // further Unicode spaces, each tried in every gap of every source (alone and
 // together with one other non-default gap)
-var c14Exotic = []string{";é\n", ";; 成年人的下限\n", ";;😀😀 x\n", " ;ü\n ", "\v", "\f", "\r", "\r\n", "\t", "", " ", " ", " ", " ", " ", "　", " \t\n\v\f\r "}
+var c14Exotic = []string{";a\rb c\n", ";é\n", ";; 成年人的下限\n", ";;😀😀 x\n", " ;ü\n ", "\v", "\f", "\r", "\r\n", "\t", "", " ", " ", " ", " ", " ", "　", " \t\n\v\f\r "}
 
 func c14Alphabet() *term.Alphabet {
 	S, SL := term.TS, term.TSL
 	return &term.Alphabet{
 		Leaves: map[term.Ty][]*term.Term{
 			B:  {term.Var("b", B), term.Const(true)},
-			S:  {term.Var("s", S), term.Const("a  b"), term.Const("a(b"), term.Const(";x"), term.Const("[,]\n "), term.Const("c\r\nd\r")},
+			S:  {term.Var("s", S), term.Const("a  b"), term.Const("a(b"), term.Const(";x"), term.Const("[,]\n "), term.Const("c\r\nd\r"), term.Const("x \ny\t\nz \n")},
 			SL: {term.Const([]string{"p  q", ")"}), term.Const([]string{})},
 		},
 		Ops: []term.OpSig{
